@@ -131,6 +131,10 @@ def plan(tier):
     per = 1500 if tier == "quick" else 40000
     for i in range(nh):
         specs.append({"kind": "hyp", "n": per})
+    if tier == "thorough":
+        # empty corpus and a fragment corpus behave differently: run both
+        for i in range(4):
+            specs.append({"kind": "atheris", "runs": 150000, "seed_corpus": i % 2 == 1})
     return specs
 
 
@@ -161,7 +165,66 @@ def _frag_strategy():
     )
 
 
+def run_atheris(spec, ctx):
+    """Coverage-guided campaign (thorough tier): libFuzzer over raw bytes, the oracle runs inside the target."""
+    import glob
+    import os
+    import re
+    import shutil
+    import subprocess
+    import sys
+    import tempfile
+
+    res = ShardResult()
+    here = os.path.dirname(os.path.abspath(__file__))
+    tmp = tempfile.mkdtemp(prefix="c14fuzz")
+    try:
+        art = os.path.join(tmp, "art")
+        corp = os.path.join(tmp, "corpus")
+        os.mkdir(art)
+        os.mkdir(corp)
+        if spec.get("seed_corpus"):
+            for i, frag in enumerate(FRAGS):
+                with open(os.path.join(corp, "f%d" % i), "wb") as f:
+                    f.write(frag + b" " + FRAGS[(i * 7) % len(FRAGS)])
+        env = dict(os.environ)
+        env["PYTHONHASHSEED"] = "0"
+        seed = (ctx.hseed("atheris") % (2 ** 31 - 1)) + 1
+        r = subprocess.run([sys.executable, os.path.join(here, "c14_fuzz.py"), art, "-runs=%d" % spec["runs"],
+                            "-seed=%d" % seed, "-max_len=300", corp], capture_output=True, env=env)
+        out = (r.stderr + r.stdout).decode("latin-1")
+        m = re.search(r"Done (\d+) runs", out)
+        cov = re.findall(r"cov: (\d+)", out)
+        crashes = glob.glob(os.path.join(art, "crash-*"))
+        if crashes:
+            data = open(crashes[0], "rb").read()
+            case = {"data": data, "bufsizes": [1, 2, 3, 7, 16]}
+            o = run_case(case)
+            res.evaluations += 1
+            if o.fail:
+                res.failures.append((case, "atheris campaign: " + o.fail))
+            else:
+                res.harness_errors.append("atheris crash does not reproduce through run_case: %r\n%s" % (data, out[-1500:]))
+        elif r.returncode != 0 or not m:
+            if "No module named 'atheris'" in out:
+                res.notes.append("atheris not installed: campaign skipped")
+            else:
+                res.harness_errors.append("atheris campaign failed (rc=%d): %s" % (r.returncode, out[-1500:]))
+        if m:
+            res.evaluations += int(m.group(1))
+            res.extra["atheris_runs"] = int(m.group(1))
+            res.classes["atheris-campaign"] += 1
+            if cov:
+                res.notes.append("atheris seed=%d corpus=%s runs=%s final cov=%s" % (
+                    seed, "fragments" if spec.get("seed_corpus") else "empty", m.group(1), cov[-1]))
+    finally:
+        shutil.rmtree(tmp, ignore_errors=True)
+    return res
+
+
 def run_shard(spec, ctx):
+    if spec["kind"] == "atheris":
+        return run_atheris(spec, ctx)
     if spec["kind"] == "enum":
         alpha = FULL if spec["alpha"] == "full" else CORE
         res = enum_search(ctx, _enum_cases(alpha, spec["L"], spec["lo"], spec["hi"]), run_case)
